@@ -385,6 +385,23 @@ fn run_prog(prog: &Prog, thorough: bool) -> serde_json::Value {
             rep = format!("diff:{}", b);
             break;
         }
+        // the plain `render` entry point agrees with `render_captured`
+        if prog.mode == "template" {
+            env.set_fuel(Some(b));
+            let ctx = Value::from(Serde(&prog.ctx));
+            let env_ref: &Environment<'static> = &env;
+            let plain = guarded(|| env_ref.get_template(&prog.templates[0].0).and_then(|t| t.render(ctx)));
+            let agrees = match (&plain, &a.outcome) {
+                (Ok(Ok(s)), Outcome::Ok(s2)) => s == s2,
+                (Ok(Err(e)), Outcome::Err(k, _)) => k.split('>').next() == Some(format!("{:?}", e.kind()).as_str()),
+                (Err(_), Outcome::Panic(_)) => true,
+                _ => false,
+            };
+            if !agrees {
+                rep = format!("render-vs-render_captured:{}", b);
+                break;
+            }
+        }
     }
     res["rep"] = json!(rep);
     res
